@@ -212,6 +212,8 @@ def content(case):
                 r['xli'] = xi
                 r['xspec'] = f"{X['id']}:{X['version']}"
                 r['xapi'] = apiobs.observe_api(r['spec'] + ' ' + r['xspec'])
+                # ... and the base alone, as before: what the extension adds is not the base's
+                r['bapi'] = apiobs.observe_api(r['spec'])
             except JobTimeout:
                 raise
             except Exception as e:
